@@ -42,7 +42,7 @@ int main (int argc, char **argv) {
 	base = argv[1]; name = argv[2]; nact = atoi (argv[3]); episodes = atoi (argv[4]); ops = atoi (argv[5]); procs = atoi (argv[6]); seed = (unsigned) atoi (argv[7]);
 	if (nact > 8) return 2;
 	vtm_init (nact + 1);
-	p_libsys_init ();
+	p_libsys_init (); p_libsys_shutdown (); p_libsys_init ();      /* the library is used after a shutdown / re-initialisation cycle */
 	vtm_open (base, 0);
 	shm = p_shm_new (name, 64, P_SHM_ACCESS_READWRITE, NULL);
 	if (!shm) return 3;
